@@ -40,6 +40,8 @@ def main():
         print(r.stderr)
         return 2
     os.makedirs(OUT, exist_ok=True)
+    if os.path.exists('/repo/petl/version.py'):   # generated, git-ignored: a fresh worktree lacks it
+        shutil.copy('/repo/petl/version.py', os.path.join(WT, 'petl', 'version.py'))
     results = {}
     resfile = os.path.join(sdir, 'RESULTS.json')
     if os.path.exists(resfile):
@@ -49,7 +51,7 @@ def main():
             d = os.path.join(sdir, mid)
             meta = json.load(open(os.path.join(d, 'meta.json')))
             prop = meta['property']
-            sh('git -C %s checkout -- . && git -C %s clean -fdq' % (WT, WT))
+            sh('git -C %s checkout -- .' % WT)
             entry = {'property': prop}
             if verify:
                 r0 = sh('PYTHONPATH=%s %s -B %s' % (WT, PY, os.path.join(d, 'demo.py')), timeout=600)
